@@ -44,7 +44,7 @@ class HFL(Harness):
         FL = rb.cls(flmod.FunctionLogger)
         calls = []
         y = eng.real("y")
-        sd = eng.real("sd") if he or op == "add" and noise else None
+        sd = eng.real("sd") if he or (op == "add" and noise and p.get("add_sd", True)) else None
         if sd is not None and kind not in ("sd_nonpos",) and not eng.concrete:
             eng.assume(sd.e > 0)
         if kind == "sd_nonpos" and not eng.concrete:
@@ -248,7 +248,7 @@ class HFL(Harness):
         blank += [not bool(v) for v in fl.X_flag[Xn1 + 1:]]
         out.ob("unused_rows_stay_blank", all(blank))
         xo_exp = sym_array(eng, "xo", (1, D))[0] if transform else x
-        merged_mode = noise and (he or op == "add")  # an SD accompanies the value -> merge path enabled
+        merged_mode = he  # only with specified noise is a repeat merged into the point's own record (statement of C12)
         if not record:
             out.ob("norecord_no_row", Xn1 == n - 1)
             out.ob("norecord_data_unchanged", unchanged(("X", "X_orig", "Y", "Y_orig", "S"), filled))
